@@ -312,7 +312,12 @@ def worker_main(pid, fin, fout, extra):
     rec = REC
     if not __debug__:
         rec.count('cases_under_python_O', len(cases))
+    if os.environ.get('VERIF_LINECOV'):
+        from vmon import monitors
+        monitors.start_reach()
     mod.run_cases(cases, rec, *extra)
+    if os.environ.get('VERIF_LINECOV'):
+        monitors.dump_lines()
     with open(fout, 'w') as f:
         json.dump(rec.dump(), f)
 
